@@ -258,19 +258,78 @@ def first_diff(a, b, path=''):
 def rule_dispatch(ctx, R, F):
     R.rule('A2-DISPATCH', 'the fill implementation is chosen only by flag: AVX2 flag -> avx2, SSSE3 flag -> ssse3, else reference; the getters return their own function; the cache records the choice once and initCache passes it to the instance; '
            'fill_memory_blocks calls instance->impl for every (pass, slice, lane)', min_instances=6)
+    import decoder as _dec
     f = F.func('randomx::selectArgonImpl')
-    ren = {f['params'][0]['id']: 'FLAGS'}
-    seq = []
-    with astq.renaming(ren), astq.nocasts():
-        for s in f['body']['s']:
-            if s['k'] == 'If':
-                rets = [showv(x['e']) for x in walk(s['t']) if x['k'] == 'Return']
-                seq.append((showv(s['c']), rets))
-            elif s['k'] == 'Return':
-                seq.append(('else', [showv(s['e'])]))
+    fid = f['params'][0]['id']
     a2, s3 = F.enumerator('RANDOMX_FLAG_ARGON2_AVX2'), F.enumerator('RANDOMX_FLAG_ARGON2_SSSE3')
-    exp = [('operator&(FLAGS, %d)' % a2, ['randomx_argon2_impl_avx2()']), ('operator&(FLAGS, %d)' % s3, ['randomx_argon2_impl_ssse3()']), ('else', ['&randomx_argon2_fill_segment_ref'])]
-    R.eq('selectArgonImpl', '%s:%d' % (f['file'], f['line']), exp, seq)
+
+    def fev(n, flags):
+        """value of a flag expression for one concrete flag word (None = not a flag expression)"""
+        n = strip_all(n)
+        v_ = val(n)
+        if v_ is not None:
+            return v_
+        if n['k'] == 'Ref':
+            return flags if n.get('id') == fid else None
+        if n['k'] == 'Call' and n.get('name') in ('operator&', 'operator|', 'operator^') and len(n['a']) == 2:
+            x_, y_ = fev(n['a'][0], flags), fev(n['a'][1], flags)
+            if None in (x_, y_):
+                return None
+            return {'&': x_ & y_, '|': x_ | y_, '^': x_ ^ y_}[n['name'][-1]]
+        if n['k'] == 'Bin' and n['op'] in ('&', '|', '^', '==', '!=', '&&', '||'):
+            x_, y_ = fev(n['l'], flags), fev(n['r'], flags)
+            if None in (x_, y_):
+                return None
+            return {'&': lambda: x_ & y_, '|': lambda: x_ | y_, '^': lambda: x_ ^ y_, '==': lambda: int(x_ == y_), '!=': lambda: int(x_ != y_),
+                    '&&': lambda: int(bool(x_) and bool(y_)), '||': lambda: int(bool(x_) or bool(y_))}[n['op']]()
+        if n['k'] == 'Un' and n.get('op') == '!':
+            x_ = fev(n['e'], flags)
+            return None if x_ is None else int(not x_)
+        return None
+
+    # decided per flag word: which value the function returns on the one path feasible for it (early returns, an if / else chain assigning a local, or ?: are all the same table)
+    other = 0xFFFFFFFF & ~(a2 | s3)
+    found, exp = {}, {}
+    all_paths = _dec.paths(f['body'])
+    with astq.nocasts():
+        for av in (0, 1):
+            for sv in (0, 1):
+                for rest in (0, other):
+                    flags = av * a2 | sv * s3 | rest
+                    key = 'avx2=%d ssse3=%d other flags %s' % (av, sv, 'set' if rest else 'clear')
+                    exp[key] = ['randomx_argon2_impl_avx2()'] if av else ['randomx_argon2_impl_ssse3()'] if sv else ['&randomx_argon2_fill_segment_ref']
+                    rets = []
+                    for p_ in all_paths:
+                        feas = True
+                        for c_, t_ in p_.conds:
+                            v_ = fev(c_, flags)
+                            if v_ is None:
+                                raise AnalysisBroken('A2-DISPATCH: selectArgonImpl branches on %s, which is not an expression over its flag argument' % show(c_))
+                            if bool(v_) != t_:
+                                feas = False
+                                break
+                        if not feas:
+                            continue
+                        env = {}
+                        for e_ in p_.events:
+                            if isinstance(e_, tuple):
+                                raise AnalysisBroken('A2-DISPATCH: selectArgonImpl contains a loop or switch')
+                            t_ = strip_all(e_)
+                            if t_['k'] == 'Assign' and strip_all(t_['l'])['k'] == 'Ref':
+                                env[strip_all(t_['l']).get('id')] = t_['r']
+                            elif t_['k'] == 'Decl':
+                                for d_ in t_.get('d', [t_]):
+                                    if d_.get('init') is not None:
+                                        env[d_.get('id')] = d_['init']
+                            elif t_['k'] == 'Return':
+                                r_ = strip_all(t_['e'])
+                                seen_ = 0
+                                while r_['k'] == 'Ref' and r_.get('id') in env and seen_ < 8:
+                                    r_ = strip_all(env[r_['id']])
+                                    seen_ += 1
+                                rets.append(showv(r_))
+                    found[key] = rets
+    R.eq('selectArgonImpl', '%s:%d' % (f['file'], f['line']), exp, found)
     for g, tgt in (('randomx_argon2_impl_avx2', 'randomx_argon2_fill_segment_avx2'), ('randomx_argon2_impl_ssse3', 'randomx_argon2_fill_segment_ssse3')):
         gf = F.func(g)
         rets = [show(x['e']) for x in walk(gf['body']) if x['k'] == 'Return']
